@@ -22,11 +22,13 @@ SSA instruction                                            Instr
   Phi(edge) ChangeType ChangeInterface Slice Convert        copy r x
     SliceToArrayPointer ssa:wrapnilchk, append (z = x)
   FieldAddr / IndexAddr                                     addr r x (field f) / addr r x elem
-  UnOp{*}  UnOp{<-}  Lookup(map)  Next(map)                 load r x none / (some buf) / (some val) / (some key|val)
-  Store  Send  MapUpdate                                    store x none v / (some buf) / (some key), (some val)
+  UnOp{*}  UnOp{<-}  Lookup(map)  Next(map)                 load r x [] / [buf] / [val] / [key] , [val]
+  Store  Send  MapUpdate                                    store x [] v / [buf] / [key], [val]
+  load / store of a struct VALUE                            one load / store per pointer-like leaf: path of fields
+    (a struct-valued SSA register is a group of virtual registers, one per leaf; see harness/ptrfacts)
   append (new array, element copy), copy builtin            alloc, hcopy
-  MakeInterface                                             mkiface r n t x
-  TypeAssert to concrete type / to interface                tassert r x t / tfilter r x ts
+  MakeInterface                                             mkiface r n t [(π, x)…]
+  TypeAssert to concrete type / to interface                tassert r x t π / tfilter r x ts
   MakeClosure                                               mkclosure r f bindings
   Call / Go / Defer (static | value | invoke)               call c callee args dsts spawn
   Return                                                    ret vs
@@ -56,12 +58,15 @@ inductive Instr where
   | alloc (r : Nat) (n : Nat)
   | copy (r : Nat) (x : Opnd)
   | addr (r : Nat) (x : Opnd) (s : ASel)
-  | load (r : Nat) (x : Opnd) (s : Option ASel)
-  | store (x : Opnd) (s : Option ASel) (v : Opnd)
+  /-- `r := *(x.π)`: the cell at selector path `π` (empty: the cell itself) below the location `x` points to -/
+  | load (r : Nat) (x : Opnd) (s : List ASel)
+  | store (x : Opnd) (s : List ASel) (v : Opnd)
   /-- one element of `*y.sy` is copied into `*x.sx`; `only = some st`: only when `x` points into an object of site `st` -/
-  | hcopy (x : Opnd) (sx : ASel) (y : Opnd) (sy : ASel) (only : Option Site)
-  | mkiface (r : Nat) (n : Nat) (t : Nat) (x : Opnd)
-  | tassert (r : Nat) (x : Opnd) (t : Nat)
+  | hcopy (x : Opnd) (sx : List ASel) (y : Opnd) (sy : List ASel) (only : Option Site)
+  /-- tagged object of concrete type `t`; `pay`: the pointer-like parts of the payload (path inside the payload, operand) -/
+  | mkiface (r : Nat) (n : Nat) (t : Nat) (pay : List (List ASel × Opnd))
+  /-- `r :=` the part at path `π` of the payload, when the dynamic type is `t` -/
+  | tassert (r : Nat) (x : Opnd) (t : Nat) (π : List ASel)
   | tfilter (r : Nat) (x : Opnd) (ts : List Nat)
   | mkclosure (r : Nat) (f : Nat) (bs : List Opnd)
   | call (c : Nat) (callee : Callee) (args : List Opnd) (dsts : List Nat) (spawn : Bool)
@@ -76,8 +81,9 @@ structure Func where
 
 structure Prog where
   funcs : Array Func
-  /-- (concrete type, method id, implementing function) -/
-  methods : List (Nat × Nat × Nat)
+  /-- (concrete type, method id, implementing function, pointer-like parts of a receiver of that type:
+      `[[]]` for a pointer-like receiver, the leaf paths for a struct receiver passed by value) -/
+  methods : List (Nat × Nat × Nat × List (List ASel))
   roots : List Nat
   deriving Inhabited
 
@@ -86,7 +92,7 @@ def Prog.code (P : Prog) (f : Nat) : List Instr := (P.func f).code
 def Prog.params (P : Prog) (f : Nat) : List Nat := (P.func f).params
 def Prog.fvs (P : Prog) (f : Nat) : List Nat := (P.func f).fvs
 
-def Prog.method (P : Prog) (t m : Nat) : Option Nat :=
+def Prog.method (P : Prog) (t m : Nat) : Option (Nat × List (List ASel)) :=
   (P.methods.find? fun e => e.1 == t && e.2.1 == m).map fun e => e.2.2
 
 /-- The dumped real result (functions, so that the oracle can back them by hash maps). -/
@@ -98,9 +104,7 @@ structure Res where
 
 /-- the cell named by selector `s` inside the object part labelled `l` -/
 def ext (l : Label) (s : ASel) : Label := (l.1, l.2 ++ [s])
-def extO (l : Label) : Option ASel → Label
-  | none => l
-  | some s => ext l s
+def extP (l : Label) (π : List ASel) : Label := (l.1, l.2 ++ π)
 
 def ptOp (R : Res) (f : Nat) : Opnd → Option (List Label)
   | .reg r => R.pt f r
@@ -148,7 +152,7 @@ def calleeOK (P : Prog) (R : Res) (f c : Nat) : Callee → Bool
       match l with
       | (Site.iface _ t, []) =>
         match P.method t m with
-        | some g => edgeOK P R f c g
+        | some gp => edgeOK P R f c gp.1
         | none => true
       | _ => true
 
@@ -169,37 +173,44 @@ def retOK (P : Prog) (R : Res) (f g : Nat) (dsts : List Nat) : Bool :=
     | .ret vs => zipAll dsts vs fun d v => inclO (ptOp R g v) (R.pt f d)
     | _ => true
 
-/-- parameter binding along the call-graph edge `(f, c, g)` -/
+/-- the points-to sets of the actual parameters are included in those of the formal parameters -/
+def bindOK (R : Res) (g : Nat) (params : List Nat) (actuals : List (Option (List Label))) : Bool :=
+  zipAll params actuals fun p a => inclO a (R.pt g p)
+
+/-- parameter binding along the call-graph edge `(f, c, g)`; for an interface method call the receiver
+parameters are bound from the payload cells of every tagged object of a type whose method is `g` -/
 def argsOK (P : Prog) (R : Res) (f g : Nat) (callee : Callee) (args : List Opnd) : Bool :=
   match callee with
-  | .static _ => zipAll (P.params g) args fun p a => inclO (ptOp R f a) (R.pt g p)
-  | .dyn _ => zipAll (P.params g) args fun p a => inclO (ptOp R f a) (R.pt g p)
+  | .static _ => bindOK R g (P.params g) (args.map (ptOp R f))
+  | .dyn _ => bindOK R g (P.params g) (args.map (ptOp R f))
   | .invoke x m =>
-    match P.params g with
-    | [] => true
-    | p0 :: ps =>
-      (zipAll ps args fun p a => inclO (ptOp R f a) (R.pt g p)) &&
-      srcs (ptOp R f x) fun S => S.all fun l =>
-        match l with
-        | (Site.iface n t, []) =>
-          if P.method t m = some g then inclO (some (R.heap (Site.iface n t, [ASel.pay]))) (R.pt g p0) else true
-        | _ => true
+    srcs (ptOp R f x) fun S => S.all fun l =>
+      match l with
+      | (Site.iface n t, []) =>
+        match P.method t m with
+        | some gp =>
+          if gp.1 = g then
+            bindOK R g (P.params g)
+              ((gp.2.map fun π => some (R.heap (Site.iface n t, ASel.pay :: π))) ++ args.map (ptOp R f))
+          else true
+        | none => true
+      | _ => true
 
 def instrOK (P : Prog) (R : Res) (f : Nat) : Instr → Bool
   | .alloc r n => memO (Site.alloc n, []) (R.pt f r)
   | .copy r x => inclO (ptOp R f x) (R.pt f r)
   | .addr r x s => srcs (ptOp R f x) fun S => S.all fun l => memO (ext l s) (R.pt f r)
-  | .load r x s => srcs (ptOp R f x) fun S => S.all fun l => inclO (some (R.heap (extO l s))) (R.pt f r)
+  | .load r x s => srcs (ptOp R f x) fun S => S.all fun l => inclO (some (R.heap (extP l s))) (R.pt f r)
   | .store x s v => srcs (ptOp R f x) fun S => srcs (ptOp R f v) fun V =>
-      S.all fun l => subL V (R.heap (extO l s))
+      S.all fun l => subL V (R.heap (extP l s))
   | .hcopy x sx y sy only => srcs (ptOp R f x) fun S => srcs (ptOp R f y) fun Y =>
       S.all fun lx => (match only with | none => false | some st => lx.1 != st) ||
-        Y.all fun ly => subL (R.heap (ext ly sy)) (R.heap (ext lx sx))
-  | .mkiface r n t y => memO (Site.iface n t, []) (R.pt f r) &&
-      srcs (ptOp R f y) fun Y => subL Y (R.heap (Site.iface n t, [ASel.pay]))
-  | .tassert r x t => srcs (ptOp R f x) fun S => S.all fun l =>
+        Y.all fun ly => subL (R.heap (extP ly sy)) (R.heap (extP lx sx))
+  | .mkiface r n t pay => memO (Site.iface n t, []) (R.pt f r) &&
+      pay.all fun py => srcs (ptOp R f py.2) fun Y => subL Y (R.heap (Site.iface n t, ASel.pay :: py.1))
+  | .tassert r x t π => srcs (ptOp R f x) fun S => S.all fun l =>
       match l with
-      | (Site.iface n t', []) => t' != t || inclO (some (R.heap (Site.iface n t', [ASel.pay]))) (R.pt f r)
+      | (Site.iface n t', []) => t' != t || inclO (some (R.heap (Site.iface n t', ASel.pay :: π))) (R.pt f r)
       | _ => true
   | .tfilter r x ts => srcs (ptOp R f x) fun S => S.all fun l =>
       match l with
